@@ -43,6 +43,13 @@ KNOWN_NESTED_STORE = 'C17-nested-subscript-store'
 # ----------------------------------------------------------------------------- programs
 HAND = [
     # (name, source) -- unusual literals of the property text
+    # bodies that consist of a docstring / a lone constant / pass only (at the top level and in nested defs, lambdas aside)
+    ('doconly', 'def f(a, b, c):\n    """only a docstring"""\n'),
+    ('stubonly', 'def f(a, b, c):\n    ...\n'),
+    ('constonly', 'def f(a, b, c):\n    42\n'),
+    ('docpass', 'def f(a, b, c):\n    """doc"""\n    pass\n'),
+    ('nesteddoc', 'def f(a, b, c):\n    """outer"""\n    def g():\n        """inner only"""\n    def h(x):\n        ...\n    class K:\n        """k"""\n        def m(self):\n            "m doc"\n    return g(), h(a), K().m()\n'),
+    ('docbytes', "def f(a, b, c):\n    b'not a docstring'\n    return a\n"),
     ('neg', 'def f(a, b, c):\n    x = -1\n    y = a[-2] - -3 ** -a\n    return (x, -y, +x, ~a, not b)\n'),
     ('fstr', "def f(a, b, c):\n    x = f\"{a!r:>{b}} {f'{c:{a}}'} {{lit}} {a + 1=}\"\n    return f'{x}' f'{b}' 'tail'\n"),
     ('fstr2', "def f(a, b, c):\n    if a:\n        x = f'{a if b else c}{\"q\"}'\n    else:\n        x = f\"{ {1: 2}[1] }{[i for i in a]!s}\"\n    return x\n"),
